@@ -129,7 +129,7 @@ func genC13(tier string, r *rng) {
 			for i := 0; i < 6; i++ {
 				var seq []string
 				for m := 0; m < 3; m++ {
-					seq = append(seq, "se:"+[]string{"c0", "c1", "-"}[r.intn(3)])
+					seq = append(seq, "se:"+[]string{"c0", "c1", "-", "c1x2", "c1x1", "c0x3"}[(r.intn(3)+3*b2i(i%3 == 2 && m != 1))%6])
 					nw := 1 + r.intn(3)
 					for j := 0; j < nw; j++ {
 						seq = append(seq, "w:"+hx(r.bytes([]int{1, av, av + 1, 3*av + 2}[r.intn(4)])))
